@@ -179,10 +179,11 @@ def _tup(edges):
     return [tuple(e) for e in edges]
 
 
-def _call(case, backend):
+def _call(case, backend, live=None):
+    """`live`: the caller's own list object (history mode); otherwise a fresh list of tuples is built from the case."""
     s = _W["solvor"]
     fn = case["fn"]
-    E = _tup(case["edges"])
+    E = live if live is not None else _tup(case["edges"])
     kw = {} if backend == "default" else {"backend": backend}
     n = case["n"]
     if fn == "floyd_warshall":
@@ -206,10 +207,10 @@ def _call(case, backend):
     raise KeyError(fn)
 
 
-def _observe(case, backend):
+def _observe(case, backend, live=None):
     """Plain-data view of a Result (or of the exception)."""
     try:
-        r = _call(case, backend)
+        r = _call(case, backend, live)
     except (_Alarm, KeyboardInterrupt, SystemExit):
         raise
     except BaseException as e:  # noqa  (a Rust panic arrives as pyo3_runtime.PanicException, a BaseException)
@@ -256,33 +257,76 @@ def _is_int_list(x):
 
 
 # --------------------------------------------------------------------------- per-function contracts
+BIG_N = 16  # above this the near-linear oracle module is used (cross-checked against the brute-force one in every run)
+_TRACE: dict = {}
+
+
+def _oracle_for(case):
+    if case["n"] > BIG_N or len(case["edges"]) > 60:
+        import oracles.c12_big as O
+    else:
+        import oracles.c12_graph as O
+    return O
+
+
+def _pr_trace(case):
+    """Independent power iteration for the case's graph and damping (oracles.c12_big.PagerankTrace; the last one is
+    cached: the cases of one option-coincidence group share the graph)."""
+    import oracles.c12_big as OB
+    key = (case["n"], case["damping"], len(case["edges"]), hashlib.blake2b(repr(case["edges"]).encode(), digest_size=8).hexdigest())
+    if _TRACE.get("key") != key:
+        _TRACE["key"] = key
+        _TRACE["val"] = OB.PagerankTrace(case["n"], case["edges"], case["damping"])
+    return _TRACE["val"]
+
+
+def _run_backends(case, live=None):
+    """Observation per back end; the whole group runs under one CPU-time budget."""
+    backends = case.get("backends") or BACKENDS
+    budget = CASE_ALARM_S * (4 if case["n"] > 256 else 1)
+    deep = case["fn"] == "strongly_connected_components_edges" and case.get("recursion_limit")
+    old_limit = sys.getrecursionlimit()
+    R = {}
+    cur = None
+    signal.signal(signal.SIGVTALRM, _on_alarm)
+    signal.setitimer(signal.ITIMER_VIRTUAL, budget)
+    try:
+        try:
+            if deep:  # the module documents: "SCC uses recursion internally ... you may need to increase the recursion limit"
+                sys.setrecursionlimit(max(old_limit, int(case["recursion_limit"])))
+            for cur in backends:
+                R[cur] = _observe(case, cur, live)
+            cur = None
+        finally:
+            signal.setitimer(signal.ITIMER_VIRTUAL, 0)
+            sys.setrecursionlimit(old_limit)
+    except _Alarm:
+        R[cur if cur is not None else backends[-1]] = {"exc": f"Timeout: no result within {budget} s of CPU time"}
+    for b in backends:
+        R.setdefault(b, {"exc": "not run (an earlier back end timed out)"})
+    return R
+
+
 def _eval_case(case):
     """-> (violations [(obligation, detail)], nontrivial, incidental {name: 1}, python_vs_oracle [(what)])"""
-    import oracles.c12_graph as O
+    return _judge(case, _run_backends(case))
 
+
+def _ob(case):
+    mode = _mode(case)
+    return f"C12/{case['fn']}[{mode}]/ensures:" if mode else f"C12/{case['fn']}/ensures:"
+
+
+def _judge(case, R):
+    """The contract: what the statement says must agree, decided on the observations R = {backend: observation}."""
+    O = _oracle_for(case)
     fn = case["fn"]
     n = case["n"]
     E = _tup(case["edges"])
     exact = case.get("exact", True)
     backends = case.get("backends") or BACKENDS
-    R = {}
-    cur = None
-    signal.signal(signal.SIGVTALRM, _on_alarm)
-    signal.setitimer(signal.ITIMER_VIRTUAL, CASE_ALARM_S)
-    try:
-        try:
-            for cur in backends:
-                R[cur] = _observe(case, cur)
-            cur = None
-        finally:
-            signal.setitimer(signal.ITIMER_VIRTUAL, 0)
-    except _Alarm:
-        R[cur if cur is not None else backends[-1]] = {"exc": f"Timeout: no result within {CASE_ALARM_S} s of CPU time"}
-    for b in backends:
-        R.setdefault(b, {"exc": "not run (an earlier back end timed out)"})
 
-    mode = _mode(case)
-    ob = f"C12/{fn}[{mode}]/ensures:" if mode else f"C12/{fn}/ensures:"
+    ob = _ob(case)
     V: list = []
     inc: dict = {}
     pvo: list = []
@@ -464,14 +508,15 @@ def _eval_case(case):
                 if not ok:
                     bad("tree-valid", f"{b}: solution is not a list of (u, v, w): {_short(s)}")
                     continue
-                pool = list(E)
+                pool: dict = {}
+                for x in E:
+                    pool[(x[0], x[1], x[2])] = pool.get((x[0], x[1], x[2]), 0) + 1
                 miss = None
                 for e in s:
-                    hit = next((i for i, x in enumerate(pool) if x[0] == e[0] and x[1] == e[1] and x[2] == e[2]), None)
-                    if hit is None:
+                    if not (_is_num(e[2]) and not math.isnan(e[2])) or pool.get((e[0], e[1], e[2]), 0) <= 0:
                         miss = e
                         break
-                    pool.pop(hit)
+                    pool[(e[0], e[1], e[2])] -= 1
                 if miss is not None:
                     bad("tree-valid", f"{b}: edge {miss} is not (or no longer) an input edge")
                 elif len(s) != n - len(comps) or O.undirected_components(n, s) != comps:
@@ -498,6 +543,23 @@ def _eval_case(case):
                 bad("scores-shape", f"{b}: not a dict node->finite score over all nodes: {_short(s)}")
         if not V or all("scores-shape" not in o for o, _ in V):
             contraction = d / (1.0 - d) if 0 <= d < 1 else None
+            placed = False
+            if case.get("trace") and contraction is not None and tol > 0:
+                # option-coincidence family: tol was placed strictly between two consecutive max-norm changes of an
+                # independent power iteration.  When no sweep within the budget is within 1e-6 (relative) of tol, rounding
+                # cannot move the sweep at which a max-norm rule fires: every back end stops at the same sweep.
+                tr = _pr_trace(case)
+                first = tr.first_below(tol, mi)
+                upto = min(mi, len(tr.changes)) if first is None else first
+                placed = all(abs(tr.changes[k] - tol) > 1e-6 * tol for k in range(upto))
+                if placed:
+                    want = "OPTIMAL" if first is not None else "MAX_ITER"
+                    if ref["status"] != want:
+                        pvo.append("pagerank python status vs independent power iteration (tol placed between two sweeps)")
+                    elif isinstance(ref["solution"], dict) and sorted(ref["solution"]) == list(range(n)):
+                        at = tr.iterates[first if first is not None else mi]
+                        if max(abs(ref["solution"][k] - at[k]) for k in range(n)) > max(tol, 1e-9):
+                            pvo.append("pagerank python scores vs independent power iteration")
             for b in backends[1:]:
                 a, c = ref["solution"], R[b]["solution"]
                 if not (isinstance(a, dict) and isinstance(c, dict) and set(a) == set(c)):
@@ -507,6 +569,8 @@ def _eval_case(case):
                     bound = 1e-9  # both made exactly max_iter sweeps from the same start: same iterate up to rounding
                 elif contraction is None:
                     continue  # damping == 1: no contraction, no derived bound (status is still compared)
+                elif placed and ref["status"] == "OPTIMAL" and R[b]["status"] == "OPTIMAL":
+                    bound = tol  # same stopping sweep: "scores equal within the convergence tolerance", literally
                 else:
                     bound = contraction * (n + 1) * tol + 1e-9
                 worst = max(abs(a[k] - c[k]) for k in a) if a else 0.0
@@ -731,10 +795,44 @@ def _key(case):
 
 
 def _size(case):
+    if case.get("kind") == "history":
+        return (10 ** 7 + len(case["steps"]), case["n"], sum(len(v) for v in case["lists"].values()), json.dumps(case, sort_keys=True))
+    if isinstance(case["edges"], dict):
+        return (case["edges"]["n"], case["n"], 0, json.dumps(case, sort_keys=True))
     return (len(case["edges"]), case["n"], sum(abs(e[2]) for e in case["edges"] if len(e) > 2), json.dumps(case, sort_keys=True))
 
 
+def _sample_view(case):
+    """What goes into the evidence as a sample: big edge lists are summarised."""
+    if case.get("kind") != "history" and isinstance(case.get("edges"), list) and len(case["edges"]) > 40:
+        return dict(case, edges=f"<{len(case['edges'])} edges, first 5: {case['edges'][:5]}>")
+    return case
+
+
 KEEP_PER_OBLIGATION = 4
+
+
+def _iter_results(unit):
+    """-> (case, judgement, backend calls, evaluations) per case of the unit."""
+    kind = unit["kind"]
+    if kind in ("history", "deep"):
+        import checks.C12_round2 as R2
+        yield from R2.results(unit)
+        return
+    if kind == "explicit":
+        gen = unit["cases"]
+    elif kind == "exhaustive":
+        gen = _gen_exhaustive(unit)
+    elif kind == "random":
+        gen = _gen_random(unit)
+    else:
+        import checks.C12_round2 as R2
+        gen = {"ladder": R2.gen_ladder, "coincidence": R2.gen_coincidence}[kind](unit)
+    for case in gen:
+        if unit.get("backends"):
+            case = dict(case, backends=unit["backends"])
+        _progress(case)
+        yield case, _eval_case(case), len(case.get("backends") or BACKENDS), 1
 
 
 def _work(unit):
@@ -746,26 +844,26 @@ def _work(unit):
         return out
     if VERIF not in sys.path:
         sys.path.append(VERIF)
-    t_cpu = time.process_time()
-    gen = unit["cases"] if unit["kind"] == "explicit" else (_gen_exhaustive(unit) if unit["kind"] == "exhaustive" else _gen_random(unit))
+    t_cpu = sum(os.times()[:4])  # children included: history programs and deep cases run in child processes
     try:
-        for case in gen:
-            if unit.get("backends"):
-                case = dict(case, backends=unit["backends"])
-            _progress(case)
-            V, nontrivial, inc, pvo = _eval_case(case)
-            out["evals"] += 1
-            out["calls"] += len(case.get("backends") or BACKENDS)
+        for case, (V, nontrivial, inc, pvo), ncalls, nevals in _iter_results(unit):
+            out["evals"] += nevals
+            out["calls"] += ncalls
             if nontrivial:
                 out["keys"].append(_key(case))
             if len(out["samples"]) < 1 and nontrivial:
-                out["samples"].append(case)
+                out["samples"].append(_sample_view(case))
             for k in inc:
-                out["inc"][k] = out["inc"].get(k, 0) + 1
+                out["inc"][k] = out["inc"].get(k, 0) + (inc[k] if unit["kind"] == "history" else 1)
             for k in pvo:
                 out["pvo"][k] = out["pvo"].get(k, 0) + 1
-                out["pvo"].setdefault("example: " + k, case)
-            mk = case["fn"] + (f"[{_mode(case)}]" if _mode(case) else "")
+                out["pvo"].setdefault("example: " + k, _sample_view(case))
+            if case.get("kind") == "history":
+                mk = "history program"
+            else:
+                mk = case["fn"] + (f"[{_mode(case)}]" if _mode(case) else "")
+            if unit["kind"] not in ("exhaustive", "random", "explicit"):
+                mk = unit["kind"] + ": " + mk
             out["by_mode"][mk] = out["by_mode"].get(mk, 0) + 1
             grouped: dict = {}
             for obl, detail in V:
@@ -787,7 +885,7 @@ def _work(unit):
     for lst in out["viol"].values():
         lst.sort(key=lambda t: t[0])
         del lst[KEEP_PER_OBLIGATION:]
-    out["cpu"] = time.process_time() - t_cpu
+    out["cpu"] = sum(os.times()[:4]) - t_cpu
     return out
 
 
@@ -933,8 +1031,18 @@ def run(ctx: Ctx):
                 "no argument and 'auto' in one worker that imports the overlay package. exhaustive: every edge SEQUENCE (order matters "
                 "for first-seen and adjacency effects) up to the stated length over all ordered pairs incl. self loops x small weight set, "
                 "times every source/target/mode; random: seeded multigraphs with duplicated/reversed hot pairs. non-trivial = at least "
-                "one edge and every back end returned a Result; distinct = different canonical JSON of the case")
+                "one edge and every back end returned a Result; distinct = different canonical JSON of the case. "
+                "round-2 families (checks/C12_round2.py): size ladder = seeded sparse multigraphs on 10..8192 (thorough 16385) nodes per function and "
+                "variant (weights wide / ties / dyadic / negative via potentials / planted negative cycle; targets none / reachable / unreachable; DAG, "
+                "DAG + self loop, DAG + back arc, strongly connected blocks, long paths), floyd_warshall up to 260 (thorough 520) nodes; option coincidence = "
+                "pagerank_edges with tol placed strictly between two consecutive max-norm changes of an independent power iteration and max_iter = c-2..c+5, 100 "
+                "around the stopping sweep c; history = programs of in-place edits and calls on one weighted and one arc list object, all three back ends per "
+                "call, every call judged by the same contract for the list contents at that moment, last call re-made in an interpreter that made no call before "
+                "(one evaluation per call group; one distinct key per program); deep = path-shaped graphs in a new interpreter process per case")
     ctx.trusted += ["oracles/c12_graph.py (closure / Bellman-Ford / Floyd-Warshall / forest weight on Fractions, Gaussian elimination for PageRank)",
+                    "oracles/c12_big.py for inputs with more than 16 nodes or 60 edges (BFS, label-correcting shortest paths on exact integers that certify "
+                    "themselves by a feasible potential or an explicit negative cycle, Kosaraju, union-find; binary64 power iteration used only to place tol "
+                    "and max_iter with a 1e-6 relative margin); compared with c12_graph.py on small random multigraphs in every run",
                     "Rust kernels rust/src/algorithms/*.rs are NOT verified: they are compiled from the tree under check and observed through the adapters",
                     "cargo/rustc/pyo3 tool chain; CPython import system (overlay on sys.path[0])"]
     ctx.assumptions += [
@@ -944,6 +1052,12 @@ def run(ctx: Ctx):
         "rust stops on L1 < tol; error of an iterate <= d/(1-d) * last L1 step); both MAX_ITER => same iterate, 1e-9; damping == 1: status only",
         "PageRank status on a knife edge: when python's last max-norm step is within 1e-9 relative of tol, OPTIMAL vs MAX_ITER is float summation order, not counted",
         "not compared (incidental): iterations, evaluations, dict key order, int-vs-float type of equal numbers, objective of topological_sort_edges/pagerank_edges",
+        "PageRank, option-coincidence family only: when no sweep within the budget has a max-norm change within 1e-6 (relative) of tol, every back end must stop at "
+        "the same sweep, so two OPTIMAL answers are compared with the bound tol itself ('equal within the convergence tolerance', literally)",
+        "size ladder, strongly_connected_components_edges: the recursion limit is raised to 20 n + 10000 during the call, as the module's docstring advises for "
+        "deep graphs; the behaviour under the DEFAULT limit is the business of the deep family (obligation suffix '[path-shaped graph, DFS depth = n >= 1000, default recursion limit]')",
+        "history mode: the caller's list must hold the same elements after a call as before it (obligation edge-list-left-untouched); a difference between the last call "
+        "of a program and the same call in an interpreter that made no call before is a violation (same back end, same input: status, solution and objective compared exactly)",
     ]
     so, log, secs = build_extension()
     ctx.notes["cargo_build_s"] = round(secs, 2)
@@ -955,14 +1069,40 @@ def run(ctx: Ctx):
     os.unlink(so)
     tmp2 = make_overlay(None)
     try:
+        import checks.C12_round2 as R2
+        import oracles.c12_big as OB
+        for msg in OB.selftest(ctx.seed, 150 if ctx.quick else 2000):
+            ctx.defects.append("oracles/c12_big.py disagrees with the brute-force oracle: " + msg)
         units, scopes = _plan(ctx)
+        for planner in (R2.plan_ladder, R2.plan_coincidence):
+            u_new, rows = planner(ctx.tier, ctx.seed)
+            units += u_new
+            scopes += rows
         # big units first (better packing); deterministic order
         units.sort(key=lambda u: (-(exhaustive_size(u["fn"], u["n"], u["L"], u.get("W")) // u["nshards"] if u["kind"] == "exhaustive" else u["count"]), json.dumps(u, sort_keys=True)))
         results, hung, timed_out = _run_pool(units, tmp, True, cap_s=1200 if ctx.quick else 7200)
+        # history programs and deep cases: a pool of its own whose workers never call the library themselves (every
+        # program / case runs in a child process of a worker that has only imported the overlay package)
+        units_h = []
+        for planner in (R2.plan_history, R2.plan_deep):
+            u_new, rows = planner(ctx.tier, ctx.seed)
+            units_h += u_new
+            scopes += rows
+        units_h.sort(key=lambda u: (-u["count"], json.dumps(u, sort_keys=True)))
+        res_h, hung_h, to_h = _run_pool(units_h, tmp, True, cap_s=1200 if ctx.quick else 7200)
+        results += res_h
+        hung += hung_h
+        timed_out = timed_out or to_h
+        units = units + units_h
         viol, counts, inc, pvo, evals, calls, keys, samples = _merge(ctx, results)
         cpu = sum(r["cpu"] for r in results)
+        ctx.notes["worker_cpu_s_by_family"] = {k: round(sum(r["cpu"] for r in results if r["unit"]["kind"] == k), 1)
+                                               for k in sorted({r["unit"]["kind"] for r in results})}
         for c in hung:
-            ctx.violation(f"C12/{c.get('fn')}" + (f"[{_mode(c)}]" if _mode(c) else "") + "/ensures:returns-on-every-backend", c,
+            if c.get("kind") == "history":
+                ctx.violation("C12/history/ensures:returns-on-every-backend", c, f"a worker made no progress for {HANG_S} s while executing this program and was killed")
+                continue
+            ctx.violation(_ob(c) + "returns-on-every-backend", c,
                           f"a worker made no progress for {HANG_S} s while evaluating this case and was killed (a hang in native code cannot be interrupted)")
         if len(results) != len(units):
             ctx.notes["units_not_finished"] = len(units) - len(results)
@@ -1032,6 +1172,10 @@ def replay(rec) -> int:
     try:
         if "cases" in case:
             unit = {"kind": "explicit", "cases": case["cases"], "backends": ("rust",)}
+        elif case.get("kind") == "history":
+            unit = {"kind": "history", "programs": [case], "shrink": False}
+        elif isinstance(case.get("edges"), dict):
+            unit = {"kind": "deep", "cases": [case]}
         else:
             unit = {"kind": "explicit", "cases": [case]}
             if noext:
